@@ -1035,3 +1035,128 @@ func derivesFromField(v ssa.Value, field string) bool {
 	}
 	return false
 }
+
+// ---------------------------------------------------------- C07 threshold origin
+
+// ThresholdPlumbing: the connection's compression threshold is stored as given
+// and applied unchanged to both directions.
+func (c *Ctx) ThresholdPlumbing() []core.Ob {
+	var obs []core.Ob
+	mk := func(key, want string, fn *ssa.Function) core.Ob {
+		o := core.Ob{Rule: "R-ORIGIN", Key: "threshold:" + key, Want: want, Armed: true, Status: core.OK}
+		if fn != nil {
+			o.Pos, o.Func = c.P.Pos(fn.Pos()), core.FnName(fn)
+		}
+		return o
+	}
+	st := c.Fn("net.(*Conn).SetThreshold")
+	o := mk("SetThreshold-stores-argument", "SetThreshold stores exactly its argument (every value, including 0 = compress everything)", st)
+	if st == nil {
+		o.Status, o.Got = core.Violated, "net.(*Conn).SetThreshold not found"
+	} else {
+		n := 0
+		for _, b := range st.Blocks {
+			for _, in := range b.Instrs {
+				s, ok := in.(*ssa.Store)
+				if !ok {
+					continue
+				}
+				if p, ok := fieldPathFromRecv(s.Addr, st.Params[0]); !ok || p != "threshold" {
+					continue
+				}
+				n++
+				if s.Val != ssa.Value(st.Params[1]) {
+					o.Status, o.Got = core.Violated, "the stored value is not the parameter itself (it is transformed first)"
+				}
+			}
+		}
+		if n == 0 {
+			o.Status, o.Got = core.Violated, "no store to the threshold field"
+		}
+	}
+	obs = append(obs, o)
+	for _, d := range []struct{ fn, callee string }{{"net.(*Conn).ReadPacket", "net/packet.(Packet).UnPack"}, {"net.(*Conn).WritePacket", "net/packet.(Packet).Pack"}} {
+		fn := c.Fn(d.fn)
+		ob := mk(d.fn+"-uses-field", d.fn+" passes the connection's threshold field, unchanged, to "+d.callee, fn)
+		if fn == nil {
+			ob.Status, ob.Got = core.Violated, "not found"
+			obs = append(obs, ob)
+			continue
+		}
+		calls := callsIn(fn, func(n string, _ *ssa.CallCommon) bool { return strings.HasSuffix(n, d.callee) })
+		if len(calls) != 1 {
+			ob.Status, ob.Got = core.Violated, fmt.Sprintf("%d calls of %s", len(calls), d.callee)
+		} else {
+			args := calls[0].Common().Args
+			last := args[len(args)-1]
+			if p, ok := fieldPathFromRecv(last, fn.Params[0]); !ok || p != "threshold" {
+				ob.Status, ob.Got = core.Violated, "the threshold argument is not a plain read of the threshold field"
+			}
+		}
+		obs = append(obs, ob)
+	}
+	// Pack and UnPack select the compressed form by the same predicate
+	var preds []string
+	for _, n := range []string{"net/packet.(*Packet).Pack", "net/packet.(*Packet).UnPack"} {
+		fn := c.Fn(n)
+		if fn == nil {
+			preds = append(preds, "?")
+			continue
+		}
+		p := "?"
+		for _, b := range fn.Blocks {
+			if len(b.Instrs) == 0 {
+				continue
+			}
+			if iff, ok := b.Instrs[len(b.Instrs)-1].(*ssa.If); ok {
+				if cmp, ok := iff.Cond.(*ssa.BinOp); ok {
+					if k, ok := constIntVal(cmp.Y); ok && cmp.X == ssa.Value(fn.Params[len(fn.Params)-1]) {
+						// which successor calls the *WithCompression variant?
+						comp := -1
+						for i, s := range b.Succs {
+							for _, in := range s.Instrs {
+								if ci, ok := in.(ssa.CallInstruction); ok && strings.Contains(calleeName(ci.Common()), "WithCompression") {
+									comp = i
+								}
+							}
+						}
+						// semantic form: for which thresholds is the compressed variant chosen?
+						var sb []string
+						for _, t := range []int64{-1, 0, 1} {
+							truth := false
+							switch cmp.Op {
+							case token.GEQ:
+								truth = t >= k
+							case token.GTR:
+								truth = t > k
+							case token.LSS:
+								truth = t < k
+							case token.LEQ:
+								truth = t <= k
+							case token.EQL:
+								truth = t == k
+							case token.NEQ:
+								truth = t != k
+							}
+							edge := 1
+							if truth {
+								edge = 0
+							}
+							sb = append(sb, fmt.Sprintf("%d:%v", t, edge == comp))
+						}
+						p = strings.Join(sb, " ")
+					}
+				}
+			}
+		}
+		preds = append(preds, p)
+	}
+	po := mk("Pack-UnPack-same-predicate", "Pack and UnPack choose the compressed frame format by the same test of the threshold (>= 0)", nil)
+	if preds[0] != preds[1] || preds[0] != "-1:false 0:true 1:true" {
+		po.Status, po.Got = core.Violated, "Pack: "+preds[0]+" ; UnPack: "+preds[1]
+	} else {
+		po.Got = "compressed iff threshold >= 0 (" + preds[0] + ")"
+	}
+	obs = append(obs, po)
+	return obs
+}
